@@ -3,23 +3,23 @@
 import json
 LEVEL = {
  'C01': ('ISI scan = definition, by functional induction over the merge scan with a loop invariant; API level incl. empty trains; model tied to /repo by exact-structure correspondence (exhaustive grids + random) and the definition oracle', 'full'),
- 'C02': ('SPIKE scan = cursor-free definition at every breakpoint and every time (refinement theorem by induction over the scan), 0 at shared spikes, global nearest-spike minimum, outside the class of known finding F9 (for which the full statement is proved FALSE of the code); values in [0,1] and the definition <= 1 for ALL valid trains', 'partial: F9 class excluded from the equality'),
- 'C03': ('SPIKE-Sync scan = pairwise coincidence definition (refinement theorem), filter indicator = same definition, one-to-one, adjacent, strict ties, window <= half ISI; API level through reconcile theorems', 'full (model)'),
- 'C04': ('order / directionality scans = sign-convention spec (refinement, both scans), directionality values = sum over the other trains / (N-1), ranges, cancellation, swap negation, antisymmetric matrix, synfire identity, pooled multivariate ratio', 'full (model)'),
- 'C05': ('scalar = average of its profile: bivariate definitional; multivariate ISI / SPIKE / Sync over the whole recording and over any sub-interval (integral linearity over add proved for all three function classes); single-pass compiled routines = profile average / profile sums', 'full (model)'),
- 'C06': ('all-pairs aggregate: divide-and-conquer = fold on an associative/commutative class, multivariate profile = mean of pair profiles at every time, multivariate PROFILES (as representations) and scalars invariant under permutation of the list (ISI, SPIKE, Sync), matrices = bivariate entries', 'full (model)'),
- 'C07': ('range / symmetry / identity: ISI complete (every kw, sub-interval, multivariate, matrix); SPIKE profile, distance, multivariate profile and matrix in [0,1] for ALL valid trains (F9 class included), SPIKE symmetry for all inputs, identity for all valid trains; Sync and order ranges, symmetry, directionality self = 0', 'full (model); remaining API-level restatements in wave F'),
- 'C08': ('affine equivariance (shift + positive scaling incl. MRTS, max_tau) of all 7 kernels for all inputs; mirror theorems for ISI, Sync, order, and SPIKE (definition: all valid trains; scan: outside F9 and its mirror image, where it is proved false)', 'partial: F9 class'),
+ 'C02': ('SPIKE scan = cursor-free definition at every breakpoint and every time (refinement theorem by induction over the scan; also on the public function incl. empty trains), 0 at shared spikes, global nearest-spike minimum, outside the class of known finding F9 (for which the full statement is proved FALSE of the code); values in [0,1] and the definition <= 1 for ALL valid trains', 'partial: F9 class excluded from the equality'),
+ 'C03': ('SPIKE-Sync scan = pairwise coincidence definition (refinement theorem; also on the public function for every keyword combination), closed form of the window (minimum of the four adjacent half intervals, capped by max_tau; MRTS form), coincidence mutual, one-to-one, adjacent, strict ties; filter indicator = same definition', 'full (model)'),
+ 'C04': ('order / directionality scans = sign-convention spec, public directionality = sum of the spec values (÷ count), directionality values = sum over the other trains / (N-1) for every keyword combination and indices, ranges, cancellation, swap negation (no exclusion), matrix entries = pair directionalities, antisymmetry, synfire identity for every kw and indices, pooled multivariate ratio', 'full (model)'),
+ 'C05': ('scalar = average of its profile: bivariate definitional; multivariate ISI / SPIKE / Sync / order over the whole recording and over any sub-interval for every keyword combination; no event inside the interval => SPIKE-Sync = 1; single-pass compiled routines = profile average / profile sums', 'full (model)'),
+ 'C06': ('all-pairs aggregate: divide-and-conquer = fold on an associative/commutative class; multivariate profile = mean of pair profiles at every time (both one-sided limits); multivariate scalars = mean / pooled ratio of the PUBLIC pair functions with the same keywords; profiles (as representations) and scalars invariant under permutation of the list; matrix entries = public pair values, diagonal 0 / 1', 'full (model)'),
+ 'C07': ('range / symmetry / identity for ISI, SPIKE (values in [0,1] for ALL valid trains, F9 class included), SPIKE-Sync, spike-train order, directionality: profiles, distances, multivariate, matrices, every keyword combination and sub-interval; finiteness of the SPIKE scan (all interval lengths positive)', 'full (model)'),
+ 'C08': ('affine equivariance (shift + positive scaling incl. MRTS, max_tau, interval, MRTS=auto) of all 7 kernels, every public scalar / profile / matrix / filter, bivariate and lists (reconcile is shift- but not scale-equivariant in its absolute tolerance band: counterexample); mirror theorems for ISI, Sync, order (sign), directionality, multivariate profiles and sub-interval scalars; SPIKE mirror for the definition (all valid trains) and for the scan outside F9 and its mirror image, where it is proved false', 'partial: F9 class (SPIKE mirror)'),
  'C09': ('add = pointwise addition on the merged support for Pwc / Pwl / Disc: one-step theorems by induction over the merge, associativity / commutativity as representations, integrals over any sub-interval distribute, refinement of arbitrary add / mul_scalar / copy histories to pointwise arithmetic, average_profile = pointwise mean', 'full (model)'),
  'C10': ('integral / average / evaluation of the three function classes are the exact Riemann integral / one-sided limits (theorems for whole support, sub-intervals, interval lists, rejects)', 'full (model)'),
  'C11': ('discrete add by event (commutative / associative as representation), open-interval integrals, lists, rejects, averages, plottable smoothing; histories', 'full (model)'),
  'C12': ('source level: the .pyx sources are transliterated on every run and executed against the .py twin and the Lean model; equality theorems between the Pyx and Py models (profiles, get_tau, single-pass = profile average, counters = profile sums for all sorted trains, API-shaped compiled routes); the compiled binary itself never runs here', 'partial by construction'),
  'C13': ('reconcile theorems (common interval, strictly increasing, exact content, idempotent, order/repeats irrelevant); EVERY API function = its Reconcile=False core on the reconciled trains (25 functions), switch irrelevant on valid input; non-mutation monitored at run time', 'full (model) + monitor'),
- 'C14': ('call-form / indices / pair theorems over the API model for every measure and keyword combination', "full (model); 'auto'+indices = known finding F8"),
- 'C15': ('MRTS antitone at kernel AND whole-profile level (ISI, SPIKE, Sync), small-MRTS and MRTS=0 no-ops, breakpoints independent of MRTS, isi_lengths = ISI-list definition outside the class of known finding F7 (full statement proved false), auto threshold = rms of pooled list and positive', 'partial: F7 class excluded'),
- 'C16': ('window <= max_tau (after fix F4), coincident implies closer than max_tau (kernel and every public function: profiles, directionality values, filter), monotone in max_tau, None = 0 = unbounded', 'full'),
- 'C17': ('filter keeps exactly the spikes whose coincidence count exceeds threshold*(N-1): keep_iff, partition, antitone in threshold; count = number of coincident trains; fraction = value of the multivariate SPIKE-Sync profile at the spike time', 'full (model); float rounding = known finding F11'),
- 'C18': ('every scalar / matrix function is defined (exact acceptance sets of intervals), all four profile kinds well-formed on [t_start,t_end] (bi- and multivariate, indices), shapes of matrices / per-spike results / filter output, SPIKE values bounded for all valid trains, positive denominators; exceptions / NaN of the real code monitored over the degenerate-input catalogue', 'full (model) + monitor'),
+ 'C14': ('call-form / indices / pair / two-index theorems over the API model for every measure and every keyword combination (reconciliation on or off)', "full (model); 'auto'+indices = known finding F8"),
+ 'C15': ('MRTS antitone at kernel, whole-profile, public, multivariate and matrix level (ISI; SPIKE for ALL valid trains; SPIKE-Sync monotone incl. filter), small-MRTS and MRTS=0 no-ops, breakpoints independent of MRTS, isi_lengths = ISI-list definition and auto threshold = rms of that list outside the class of known finding F7 (full statement proved false), auto threshold positive', 'partial: F7 class excluded'),
+ 'C16': ('window <= max_tau (after fix F4), coincident implies closer than max_tau (kernel and every public function, every keyword combination), monotone in max_tau at kernel, profile, multivariate-profile and filter-output level, None = 0 = unbounded', 'full'),
+ 'C17': ('filter keeps exactly the spikes whose coincidence count exceeds threshold*(N-1) (every keyword combination): keep rule, partition, antitone in threshold; count = number of coincident trains; multivariate profile at a spike time = pooled counts of the trains spiking there; gloss "= the value the profile shows for that spike" false at shared spike times with different counts (known finding F14, kernel-decided witness)', 'full (model) for the keep rule; F11 (float), F14'),
+ 'C18': ('every scalar / matrix function is defined (exact acceptance sets of intervals), all four profile kinds well-formed on [t_start,t_end] (bi- and multivariate, indices), shapes of matrices / per-spike results / filter output, SPIKE values bounded and every interval length the scan divides by positive for all valid trains; exceptions / NaN of the real code monitored over the degenerate-input catalogue', 'full (model) + monitor'),
  'C19': ('text round trip: load(save) = trains rounded to the printed precision (sorted trains: exactly the printed values), line structure, comments, empty lines, sorting; printed value: odd, monotone, idempotent, exact on short decimals, relative accuracy 10^-p/2, resolved spikes stay distinct; second round trip identical; IEEE decimal conversion assumed', 'partial: IEEE parsing assumed'),
  'C20': ('merge = sorted multiset union, PSTH bins partition the spikes and conserve the count, Poisson generator output sorted and inside the interval', 'full (model)'),
 }
